@@ -118,9 +118,27 @@ PcAfter(e) ==
     [] e.ev = "Callback" -> (IF job.file THEN "Frame" ELSE "Ramp")
     [] e.ev = "Frame" -> "Ramp" [] e.ev = "StepEnd" -> (IF mode = "job" THEN "StepBegin" ELSE "Idle")
     [] OTHER -> "Idle"
+\* Why an event is not explained, in terms of what the properties state (C07 / C15 / C20); evaluated on the state BEFORE the
+\* resynchronisation.  An unexplained event without such a reason is a purely structural deviation from Solver.tla (an extra or
+\* re-ordered evaluation, say): the harness reports "Mismatch-*" alone as specification drift, not as a violation.
+Reasons(e) ==
+  (IF e.ev = "FunItems" /\ ~ObsUnchanged(e) THEN {"StateChangedOutsideCommit"} ELSE {})
+  \cup (IF e.ev = "Commit" /\ e.had /\ e.sv # Get(trial, e.item) THEN {"CommitNotTrialOfIterate"} ELSE {})
+  \cup (IF e.ev = "Commit" /\ ~e.had /\ ~Match(Get(obs, e.item), e.sv) THEN {"StateChangedOutsideCommit"} ELSE {})
+  \cup (IF e.ev = "Commit" /\ pc \in {"Raise", "JobRaise"} THEN {"CommitOnFailurePath"} ELSE {})
+  \cup (IF e.ev = "Return" /\ ~e.success THEN {"ReturnWithoutSuccess"} ELSE {})
+  \cup (IF e.ev = "Return" /\ e.x # x THEN {"ReturnNotLastIterate"} ELSE {})
+  \cup (IF e.ev = "Raise" /\ e.kind \notin {"nan", "maxiter"} THEN {"UndocumentedException"} ELSE {})
+  \cup (IF e.ev = "Callback" /\ e.x # x THEN {"CallbackNotSubstepField"} ELSE {})
+  \cup (IF e.ev = "Frame" /\ e.x # x THEN {"FrameNotSubstepField"} ELSE {})
+  \cup (IF e.ev = "Frame" /\ e.time # time THEN {"FrameOutOfOrder"} ELSE {})
+  \cup (IF e.ev = "TraceEnd" /\ DOMAIN e.expect # {} /\
+           ~(Len(results) = e.expect.nres /\ raised = e.expect.raised /\ Len(cbs) = e.expect.ncb /\ Len(frames) = e.expect.nframes
+             /\ \A it \in DOMAIN e.expect.committed : Match(Get(obs, it), e.expect.committed[it]))
+        THEN {"OutcomeNotAsSpecified"} ELSE {})
 Mismatch ==
   /\ l <= Len(Trace) /\ ~ENABLED Matched
-  /\ bad' = bad \cup {<<tid, "Mismatch-" \o E.ev \o "-at-" \o pc>>}
+  /\ bad' = bad \cup {<<tid, "Mismatch-" \o E.ev \o "-at-" \o pc>>} \cup {<<tid, c>> : c \in Reasons(E)}
   /\ pc' = PcAfter(E)
   /\ x' = IF "x" \in DOMAIN E THEN E.x ELSE x
   /\ mode' = IF PcAfter(E) = "Idle" THEN "none" ELSE mode
